@@ -374,6 +374,50 @@ def run(chk):
                     if nbad <= 6:
                         chk.violation("input", f"model:value path {json.dumps(om)} holds {json.dumps(at)[:80]} but the binding delivered {json.dumps(delivered)[:80]}",
                                       template=src, data=D, binding="get", got=om)
+    # ---- (3) the same after an update of one field: through the update-path tree and through the binding map ------
+    ureqs, umeta = [], []
+    k = -1
+    for (i, di), o in zip(meta, outs):
+        src, st = tpls[i]
+        if di != 0 or "error" in o or not o.get("snapshots"):
+            continue
+        D0 = DATA[0]
+        B = o["snapshots"][0].get("B") or []
+        for f in ("i", "k", "c", "z", "n", "s", "e"):
+            if f not in src:
+                continue
+            D1 = dict(D0)
+            D1[f] = DATA[1][f]
+            g = json.loads(answers[i])
+            ureqs.append({"op": "render", "gen_groups": g["gen_groups"], "path": "p", "steps": [{"create": D0}, {"update": D1, "U": {f: True}}]})
+            umeta.append((i, f, D1, "update"))
+            if f in B:
+                ureqs.append({"op": "render", "gen_groups": g["gen_groups"], "path": "p", "steps": [{"create": D0}, {"bindmap": f, "D": D1}]})
+                umeta.append((i, f, D1, "binding-map"))
+    uouts = core.run_node(ureqs) if ureqs else []
+    for (i, f, D1, how), o in zip(umeta, uouts):
+        src, st = tpls[i]
+        if "error" in o or len(o.get("snapshots", [])) != 2:
+            nbad += 1
+            if nbad <= 6:
+                chk.violation("input", f"{how} of field {f} threw: {o.get('error')}", template=src, data=D1, field=f)
+            continue
+        try:
+            exp = expected_leaves(st, D1)
+        except ValueError:
+            continue
+        got = collect_inputs(o["snapshots"][1]["tree"], [])
+        if len(got) != len(exp):
+            continue        # the list itself changed shape: C06's subject
+        for li, (n_, (pm, pe, pc)) in enumerate(zip(got, exp)):
+            om = (n_.get("modelPaths") or {}).get("value")
+            chk.case((src, f, how, li), nontrivial=pm is not None)
+            if canon_path(pm) != canon_path(om):
+                nbad += 1
+                if nbad <= 6:
+                    chk.violation("input", f"after a {how} of field {f}: model:value path is {json.dumps(om)} but the expression now reads {json.dumps(pm)}",
+                                  template=src, data=D1, field=f, how=how, expected=pm, got=om)
+    chk.bump("oracle:update-steps", len(umeta))
     chk.bump("oracle:templates", len(tpls))
     chk.bump("oracle:path-mismatches", nbad)
 
